@@ -37,6 +37,48 @@ CLAIMED = {
          "Partition invariant preserved per step: unlinked ⇒ freed exactly once or re-linked/queued; freed ⇒ not linked, nothing orphaned below; new_node grows only after free.pop()=None and overwrites all four fields of a recycled slot; clear resets arena, free list and root together; only tabulated functions push/pop/clear; nothing reachable from _retain allocates. The numeric bound is a corollary, not computed.",
          TB + "; tree-shaped pre-state; _retain on bounded sub-trees", "DESIGN.md §6 C16"),
 }
+CLAIMED.update({
+ "C03": (AI + "; one step of every stack walker / wrapper on a one-entry stack; constructor start lists; tree-ness of the links under every structural mutator",
+         "Per step: a walker pushes exactly [right child, left child] of the popped node and yields the projection of that node iff it holds a value (prefix and value of the same node), returns None on an empty stack; "
+         "every whole-map/set/view constructor starts on the right table with [root]/[view node]; clones are derived; the structural mutators never link a slot twice or leave a freed slot linked. The induction over the traversal is not mechanised.",
+         TB + "; assumes C15/C16 for 'exactly once'", "DESIGN.md §6 C03"),
+ "C05": (AI + "; every arm of Union/UnionMut::next and both constructors compared with the specification table (Appendix B) over the facts the path examined",
+         "Per arm and abstract input class: entries pushed and their order (pair classification, one-sided descent keeping the sibling on the correct end, right before left), item emitted (tag from value presence, values and key of the paired nodes), initial stack for any two view positions; decisions without an examined fact are reported. Induction over the traversal not mechanised.",
+         TB + "; assumes C15, C17", "DESIGN.md §6 C05, Appendix B"),
+ "C06": (AI + "; arms Both/FirstA/FirstB of Intersection(Mut)::next and constructors against the specification table",
+         "Per arm: prune of non-overlapping pairs, one-sided descent to the child on the other operand's side, emission only in Both iff both valued with both values; initial stack for any two view positions (disjoint sub-views start empty).",
+         TB + "; assumes C15, C17", "DESIGN.md §6 C06, Appendix B"),
+ "C07": (AI + "; arms of Difference, DifferenceMut, CoveringDifference, CoveringDifferenceMut and constructors against the specification table",
+         "Per arm: classification, one-sided descents, emission of the left value iff selected, covering prune (nothing pushed or emitted once the right node of Both/FirstR holds a value, right value consulted nowhere else); initial stacks for any two view positions.",
+         TB + "; assumes C15, C17", "DESIGN.md §6 C07, Appendix B"),
+ "C08": (AI + "; LPM annotations of every pushed entry / emitted item / initial entry compared with the specification (own value of a paired node, else inherited)",
+         "Inductive invariant 'annotation = deepest valued X-node on the path to the entry', checked per arm of Union, Difference, DifferenceMut and for the constructors (nothing inherited at the start); emitted items report the popped entry's annotation of the other side.",
+         TB + "; assumes C15, C17; compared where the structure (C05/C07) agrees", "DESIGN.md §6 C08"),
+ "C10": (AI + "; certificate walk for the covered sub-tree; slot-graph replay for remove_children; bounded-exhaustive sub-trees for retain",
+         "children*/set children: iterator over the table starting at the root of the sub-tree the selector covers; remove_children detaches exactly that sub-tree (zero-length → clear) and empties/frees only its slots; retain: predicate once per entry with its own prefix and value, post-order, value removed iff false, no live slot lost.",
+         TB + "; assumes C15, C17; retain on sub-trees of <= 2 levels below the start node (and from the root), no value-less leaves below it", "DESIGN.md §6 C10"),
+ "C11": (AI + "; table B.5 on every path of the navigation / accessor functions for real and virtual positions; find rule of C12 for view_at",
+         "left/right/has_left/has_right/split, prefix/value/prefix_value(+_mut), set/remove, view()/view_mut() constructors, view() of a mutable view, and view_at/view_mut_at/find positions.",
+         TB + "; assumes C15, C17; the existence clause for canonical tries is not re-derived", "DESIGN.md §6 C11"),
+ "C13": (AI + "; every mutable traversal held against the specification of its read-only twin; no-side-effect scan of all their paths",
+         "Mutable set operations (arms + constructors), IterMut/ValuesMut steps and constructors, get_mut, get_lpm_mut, children_mut, value_mut/prefix_value_mut follow the read-only rule with &mut in the value position of the same node; none of them changes presence, prefixes, links, free list or arena.",
+         TB + "; assumes C15, C17; visibility to later reads = the reference points into the node", "DESIGN.md §6 C13"),
+ "C14": ("compile-fail witnesses with compiling twins (rustc, against the .rmeta of the current tree) + inventory / variance / unsafe-impl queries over the type-checked program + single-visit check on the interpreted *_mut steps",
+         "43 aliasing / thread-safety client programs are rejected with the expected error code on the marked line (twins compile), 4 intended patterns compile; every type holding &Table from which get_mut is reachable has its Send and Clone witnesses, is built only from exclusive receivers, is invariant in its value types; the only unsafe auto-trait impls are Table's with P,T: Send/Sync; get_mut is applied only to the popped entry's own index per table.",
+         "trusted: rustc borrow checker / auto traits; assumes C15 for single visit; the schedule clause (concurrent = sequential) and aliasing-model UB are not decided", "DESIGN.md §6 C14, Appendix C"),
+ "C17": ("site rules over the typed tree of prefix.rs / to_right: guarded shifts, arithmetic and narrowing casts justified by operand types, shape of the eq / zero / contains defaults",
+         "ONLY the boundary-safety clause ('no operation panics or overflows for bit indices 0..=255 and lengths 0..=width') is decided. NOT decided: reflexivity / antisymmetry / transitivity of contains, the longest_common_prefix equations, is_bit_set = i-th bit, from_repr_len masking, agreement of the per-type overrides with the generic definitions — bit-vector identities out of reach for this technique (seeded change C17-a is consequently not detected).",
+         "assumes shipped representations <= 128 bits and foreign constructors accepting len <= width", "DESIGN.md §6 C17, §9"),
+ "C18": ("who-may-call query on Prefix::repr/from_repr_len and P-bounds + " + AI + " for prefix writes and reported prefixes",
+         "Trie code never reads a key's raw representation; the stored prefix of an existing node is written exactly by the inserting/replacing calls (always, with the caller's prefix) and by nothing else; observers, Entry::key and every set-operation item report the stored prefix of a node that holds the reported value.",
+         TB + "; assumes C17 (mask/eq/contains ignore host bits); 'most recent call' is the per-step fact", "DESIGN.md §6 C18"),
+ "C19": (AI + " with sequence-combinator models (Iterator::eq / zip / all), clone and serde models",
+         "eq of maps and sets is Iterator::eq over both whole walkers (or count ∧ zipped element-wise own equality); Clone derived / clone_from copies table, free list and counter; Table::clone copies the node vector; from_iter inserts every item into a fresh collection; Serialize collects the whole collection; Deserialize goes through from_iter.",
+         TB + "; std's Iterator::eq and derive(Clone) trusted; value-level round trips through a foreign format not decided", "DESIGN.md §6 C19"),
+ "C20": (AI + " over all public entry points (panic reachability), MIR panic-site inventory with coverage, loop-progress and callback-time consistency replay",
+         "No analysed path of any entry point (incl. two-call sequences on borrowed entry handles) ends in a panic; every panic-capable site lies in an analysed function or a tabulated class; every loop iteration pops or descends; at every user-callback invocation counter and slots are consistent; the arena shrinks only with the free list. D3 (view set() not counted → later `count -= 1` underflow) is an open known finding.",
+         TB + "; assumes C04/C15/C16 invariants of the pre-state; panics in user Prefix impls and allocation failure not decided", "DESIGN.md §6 C20"),
+})
 NOT_YET = {}
 
 def main():
